@@ -15,7 +15,11 @@ import (
 
 // FaultPlan describes what the destination does wrong. Stored verbatim in replay files.
 type FaultPlan struct {
-	Kind  string `json:"kind"`            // short+err zero+err full+err always transient short+nil
+	// short+err zero+err full+err always transient short+nil, and flaky: a SEQUENCE of faults —
+	// every sink call fails with probability K percent (decided by a hash of J and the call
+	// index, so the sequence is a pure function of the plan), in one of the three shapes
+	// (nothing / half / everything accepted, plus the error); calls in between succeed
+	Kind  string `json:"kind"`
 	K     int    `json:"k,omitempty"`     // total byte offset at which a short+err writer starts to fail
 	J     int    `json:"j,omitempty"`     // sink call index (0-based) for call-indexed kinds
 	Shape string `json:"shape,omitempty"` // transient: zero | short | full
@@ -43,6 +47,8 @@ func (p *FaultPlan) String() string {
 		return "always" + e
 	case "transient":
 		return fmt.Sprintf("transient(%s)@j=%d%s", p.Shape, p.J, e)
+	case "flaky":
+		return fmt.Sprintf("flaky(seed=%d,%d%%)%s", p.J, p.K, e)
 	}
 	return fmt.Sprintf("%s@j=%d%s", p.Kind, p.J, e)
 }
@@ -172,6 +178,19 @@ func (s *Sink) Write(p []byte) (int, error) {
 			}
 			s.acc = append(s.acc, p[:n]...)
 			return s.fail(n, "transient")
+		}
+	case "flaky":
+		h := hashU64(uint64(pl.J)*0x9e3779b97f4a7c15+1, uint64(idx))
+		if int(h%100) < pl.K {
+			n := 0
+			switch (h >> 8) % 3 {
+			case 1:
+				n = len(p) / 2
+			case 2:
+				n = len(p)
+			}
+			s.acc = append(s.acc, p[:n]...)
+			return s.fail(n, "flaky")
 		}
 	case "short+nil":
 		if idx == pl.J && len(p) > 0 {
